@@ -24,12 +24,14 @@ def run(chk):
              "inside -> result.emplace_back(path); continue")
     chk.rule("T.location", "GetLocation(rec, pt, loc): strictly inside -> true/Inside; on the boundary -> false and an edge the point lies on; "
              "outside -> true and a side the point lies beyond; all 25 weak orderings")
+    chk.rule("SCAN.start", "the segment scan of RectClip64::ExecuteInternal starts at index 0 (the closing segment) on every path")
     chk.rule("LOOP", "nothing written while clipping one path is read while clipping the next ('path by path')")
     chk.rule("CLEAN", "RectClip64's scratch containers are empty again at every normal exit of Execute")
     for cfg in cfgs:
         db = AstDB(cfg)
         e3.rect_shortcuts(db, chk, cfg)
         e3.location_table(db, chk, cfg)
+        e3.scan_start_rule(db, chk, cfg, "RectClip64::ExecuteInternal", 0)
         eng = e2.E2(db, chk, cfg, ["RectClip64", "RectClipLines64"])
         e2.check_classification(eng, RECT, chk, "RectClip64")
         f = db.one("RectClip64::Execute")
